@@ -75,6 +75,13 @@ int main() {
     dump_const("vgatherdps_has_vex", uint32_t(gi.common_info().has_flag(InstDB::InstFlags::kVex)));
     dump_const("vgatherdps_prefer_evex", uint32_t(gi.common_info().prefer_evex()));
     dump_const("vgatherdps_vsib", uint32_t(gi.common_info().has_flag(InstDB::InstFlags::kVsib))); }
+  { const InstDB::InstInfo& ai = InstDB::_inst_info_table[Inst::kIdVaddps];   // the three-register instruction of the VEX/EVEX register-path model
+    dump_const("vaddps_id", Inst::kIdVaddps);
+    dump_const("vaddps_encoding_is_rvm_lx", uint32_t(ai._encoding == InstDB::kEncodingVexRvm_Lx));
+    dump_const("vaddps_has_vex", uint32_t(ai.common_info().has_flag(InstDB::InstFlags::kVex)));
+    dump_const("vaddps_has_evex", uint32_t(ai.common_info().has_flag(InstDB::InstFlags::kEvex)));
+    dump_const("vaddps_prefer_evex", uint32_t(ai.common_info().prefer_evex())); }
+  dump_const("vvvvv_shift", kVexVVVVVShift);
   dump_const("cdshl_shift", Opcode::kCDSHL_Shift);
   dump_const("cdshl_mask", Opcode::kCDSHL_Mask);
   dump_const("cdtt_shift", Opcode::kCDTT_Shift);
@@ -82,7 +89,9 @@ int main() {
   dump_const("ll_mask", Opcode::kLL_Mask);
   dump_const("mm_mask", Opcode::kMM_Mask);
   dump_const("reg_type_mask", uint32_t(RegType::kMask));
+  dump_const("id_shl", Inst::kIdShl); dump_const("id_push", Inst::kIdPush); dump_const("id_pop", Inst::kIdPop); dump_const("id_add", Inst::kIdAdd); dump_const("id_mov", Inst::kIdMov);   // ids used by the non-vacuity examples
   dump_const("encoding_x86_rot", InstDB::kEncodingX86Rot);
+  dump_const("encoding_x86_arith", InstDB::kEncodingX86Arith);
   dump_const("pp_shift", Opcode::kPP_Shift);
   dump_const("rex_shift", Opcode::kREX_Shift);
   dump_const("opcode_w", Opcode::kW);
@@ -161,9 +170,19 @@ int main() {
   DUMP_FIELD("simm9_reg_hi_id", baseRM_SImm9, r.reg_hi_id)
   DUMP_FIELD("simm9_imm_shift", baseRM_SImm9, r.imm_shift)
   DUMP_FIELD("simm9_pre_post_op", baseRM_SImm9, r.pre_post_op())
+  DUMP_FIELD("ldpstp_reg_type", baseLdpStp, r.reg_type)
+  DUMP_FIELD("ldpstp_offset_shift", baseLdpStp, r.offset_shift)
+  DUMP_FIELD("ldpstp_pre_post_op", baseLdpStp, r.pre_post_op)
+  DUMP_FIELD("simdldst_literal_op", simdLdSt, r.literal_op)
+  DUMP_FIELD("simdldst_u_alt_inst_id", simdLdSt, r.u_alt_inst_id)
+  DUMP_FIELD("simdldur_opcode", simdLdurStur, r.opcode)
 #undef DUMP_FIELD
+  dump_const("id_ldr", Inst::kIdLdr); dump_const("id_str", Inst::kIdStr); dump_const("id_ldp", Inst::kIdLdp); dump_const("id_ldrb", Inst::kIdLdrb);   // ids used by the non-vacuity examples
   dump_const("encoding_base_ldst", InstDB::kEncodingBaseLdSt);
   dump_const("encoding_base_rm_simm9", InstDB::kEncodingBaseRM_SImm9);
+  dump_const("encoding_base_ldpstp", InstDB::kEncodingBaseLdpStp);
+  dump_const("encoding_simd_ldst", InstDB::kEncodingSimdLdSt);
+  dump_const("id_ldr_v", Inst::kIdLdr_v); dump_const("id_str_v", Inst::kIdStr_v);
   dump_const("reg_type_label_tag", uint32_t(RegType::kLabelTag));
   dump_const("reg_type_gp32", uint32_t(RegType::kGp32));
   dump_const("reg_type_gp64", uint32_t(RegType::kGp64));
